@@ -58,10 +58,17 @@ DrawnWhereNeeded(r) ==
 
 Count(s, x) == Cardinality({j \in 1..Len(s) : s[j] = x})
 
+\* the compact game keeps the DECLARED chance infosets apart: two chance nodes share an infoset iff they were declared
+\* with the same label (a chance node declared without an infoset is an infoset of its own; `decl` comes from the raw
+\* tree, `info` from the game the library built)
+DeclOK == \A n, m \in 1..Len(g.kids) :
+            (g.kind[n] = "C" /\ g.kind[m] = "C") => ((g.info[n] = g.info[m]) <=> (g.decl[n] = g.decl[m]))
+
 PassOK(r) ==
   LET pick == PickOf(r)
       seq == Sequential(g, g.method, r.q, pick)
-  IN /\ DrawsOK(r)
+  IN /\ DeclOK
+     /\ DrawsOK(r)
      /\ DrawnWhereNeeded(r)
      /\ \A n \in 1..Len(g.kids) : Count(r.entered, n) = (IF n \in seq THEN 1 ELSE 0)
      /\ \A j \in 1..Len(r.locks) : r.locks[j]
